@@ -33,11 +33,13 @@ static std::vector<unsigned char> gExt;
 
 class MemResolver : public EntityResolver, public XMLEntityResolver {
 public:
+    // an empty entity is passed as a valid pointer with length 0 (a null pointer would be the caller's misuse)
+    static const XMLByte* bytes() { static const XMLByte none[1] = {0}; return gExt.empty() ? none : gExt.data(); }
     InputSource* resolveEntity(const XMLCh* const, const XMLCh* const) {
-        return new MemBufInputSource(gExt.data(), gExt.size(), "ext", false);
+        return new MemBufInputSource(bytes(), gExt.size(), "ext", false);
     }
     InputSource* resolveEntity(XMLResourceIdentifier*) {
-        return new MemBufInputSource(gExt.data(), gExt.size(), "ext", false);
+        return new MemBufInputSource(bytes(), gExt.size(), "ext", false);
     }
 };
 
